@@ -9,4 +9,4 @@ Extraction "ds.ml" force_number_types
   r_ea_step ea_contents ea_spec_step cap_ok cap_after_grow_ok
   r_eq_step r_eq_view eq_spec_step
   r_spm_step spm_get spm_getmin spm_spec_step am_lookup am_min
-  r_mp_step r_mp_atexit mp_world0 mp_spec_ok.
+  r_mp_step r_mp_atexit r_mp_exit mp_world0 mp_spec_ok.
